@@ -404,15 +404,15 @@ var panicInventory = map[string]belief{
 
 // assertInventory: "package|asserted type <- operand kind" -> belief.
 var assertInventory = map[string]belief{
-	"internal/astdiff|ast.Node <- call:(reflect.Value).Interface":            {1, "values walked are go/ast nodes"},
+	"internal/astdiff|ast.Node <- call:(reflect.Value).Interface":           {1, "values walked are go/ast nodes"},
 	"internal/astdiff|token.Pos <- call:(internal/astdiff.value).Interface": {5, "token.Pos typed fields only (guarded by the type test on the field type)"},
-	"internal/engine|*ast.ForStmt <- call:(reflect.Value).Interface":         {2, "compileForStmt is called only from the goast.ForStmtPtrType case of compile (checked below)"},
-	"internal/engine|*ast.Ident <- call:(reflect.Value).Interface":           {3, "compileIdent is called only for *ast.Ident values; the import name replacer yields *ast.Ident"},
+	"internal/engine|*ast.ForStmt <- call:(reflect.Value).Interface":        {2, "compileForStmt is called only from the goast.ForStmtPtrType case of compile (checked below)"},
+	"internal/engine|*ast.Ident <- call:(reflect.Value).Interface":          {3, "compileIdent is called only for *ast.Ident values; the import name replacer yields *ast.Ident"},
 	"internal/engine|*engine.span <- call:(internal/engine.span).Intersect": {1, "result of span.Intersect"},
-	"internal/engine|*engine.span <- param:intervalset.Interval":             {5, "the interval set only ever holds *span"},
-	"internal/engine|ast.Node <- call:(reflect.Value).Interface":             {4, "elements of []ast.Stmt / []ast.Expr / []*ast.Field, GenericNodeMatcher candidates and the for-body are ast.Nodes"},
-	"internal/engine|token.Pos <- call:(reflect.Value).Interface":            {3, "Pos matchers/replacers are compiled only for token.Pos fields (checked below) and StructMatcher checked the struct type first"},
-	"internal/pgo|*ast.FuncDecl <- value:ast.Node":                           {1, "a FakeFunc augmentation implies the single declaration is the synthesized func"},
+	"internal/engine|*engine.span <- param:intervalset.Interval":            {5, "the interval set only ever holds *span"},
+	"internal/engine|ast.Node <- call:(reflect.Value).Interface":            {4, "elements of []ast.Stmt / []ast.Expr / []*ast.Field, GenericNodeMatcher candidates and the for-body are ast.Nodes"},
+	"internal/engine|token.Pos <- call:(reflect.Value).Interface":           {3, "Pos matchers/replacers are compiled only for token.Pos fields (checked below) and StructMatcher checked the struct type first"},
+	"internal/pgo|*ast.FuncDecl <- value:ast.Node":                          {1, "a FakeFunc augmentation implies the single declaration is the synthesized func"},
 }
 
 func panicMessage(p *ssa.Panic) string {
